@@ -389,7 +389,7 @@ Qed.
 Lemma gslot_st g r j v r' j' : r < List.length (g_recs g) ->
   gslot (upd_rec g r (set_slot j v)) r' j' = if (Nat.eqb r' r && Nat.eqb j' j)%bool then v else gslot g r' j'.
 Proof.
-  intros Hlt. unfold gslot. destruct (Nat.eqb_spec r' r) as [->|Hr]; cbn.
+  intros Hlt. unfold gslot. destruct (Nat.eqb_spec r' r) as [->|Hr].
   - rewrite get_upd_same by exact Hlt. cbn. reflexivity.
   - rewrite get_upd_other by exact Hr. reflexivity.
 Qed.
@@ -411,7 +411,7 @@ Lemma inv_st_slot c g a tr t r j v k' :
 Proof.
   intros HI Hrec Hj Hk.
   assert (Hlt : r < List.length (g_recs g)) by (eapply owns_lt; [exact HI|left; exact Hrec]).
-  pose proof (excl_rec_held _ _ _ _ t) as Hex. specialize (fun t' => Hex t' r HI Hrec).
+  assert (Hex : forall t', In r (v_held (view a t')) -> False) by (intros t'; eapply excl_rec_held; eauto).
   destruct HI.
   set (g' := upd_rec g r (set_slot j v)). set (a' := upd_view a t (with_clr (view a t) k')).
   assert (Hown : forall r', r_owner (get_rec g' r') = r_owner (get_rec g r')).
@@ -474,4 +474,430 @@ Proof.
       { unfold st_slot_evs in He. destruct es' as [|x [|y l]]; cbn in He; inversion He; auto. destruct l; discriminate. }
       subst e. discriminate. }
     intros t' H. specialize (Hi t' H). unfold idle in *. now rewrite Hvh, Hvc.
+Qed.
+
+(** ** 6. owner_rec_ changes *)
+Lemma set_owner_facts g r b : r < List.length (g_recs g) ->
+  let g' := upd_rec g r (set_owner b) in
+  (forall r' j, gslot g' r' j = gslot g r' j) /\
+  (forall r', r_ret (get_rec g' r') = r_ret (get_rec g r')) /\
+  (forall r', r' <> r -> r_owner (get_rec g' r') = r_owner (get_rec g r')) /\
+  r_owner (get_rec g' r) = b /\
+  List.length (g_recs g') = List.length (g_recs g) /\ g_list g' = g_list g.
+Proof.
+  intros Hlt g'. unfold g'. repeat split.
+  - intros r' j. unfold gslot. destruct (Nat.eq_dec r' r) as [->|Hne];
+      [rewrite get_upd_same by exact Hlt|rewrite get_upd_other by exact Hne]; reflexivity.
+  - intros r'. destruct (Nat.eq_dec r' r) as [->|Hne];
+      [rewrite get_upd_same by exact Hlt|rewrite get_upd_other by exact Hne]; reflexivity.
+  - intros r' Hne. now rewrite get_upd_other by exact Hne.
+  - now rewrite get_upd_same by exact Hlt.
+  - apply upd_rec_length.
+Qed.
+
+Definition with_rec (v : lview) (o : option nat) : lview := mkV o (v_held v) 0 (v_scan v) (v_cl v) (v_seen v).
+Definition with_held (v : lview) (h : list nat) : lview := mkV (v_rec v) h (v_clr v) (v_scan v) (v_cl v) (v_seen v).
+
+(** alloc_thread_data reuses a free record: CAS owner_rec_ null -> rec succeeded *)
+Lemma inv_acquire_rec c g a tr t r :
+  Inv c g a tr -> v_rec (view a t) = None -> In r (g_list g) -> r_owner (get_rec g r) = false ->
+  Inv c (upd_rec g r (set_owner true)) (upd_view a t (with_rec (view a t) (Some r))) tr.
+Proof.
+  intros HI Hnone Hin Hfree.
+  assert (Hlt : r < List.length (g_recs g)) by (apply (i_list_lt _ _ _ _ HI); exact Hin).
+  assert (Hnobody : forall t', ~ owns (view a t') r).
+  { intros t' Ho. pose proof (owns_owner _ _ _ _ _ _ HI Ho). congruence. }
+  destruct (set_owner_facts g r true Hlt) as (Hs & Hret & Hoo & Hor & Hlen & Hlist).
+  destruct HI.
+  set (g' := upd_rec g r (set_owner true)) in *. set (a' := upd_view a t (with_rec (view a t) (Some r))).
+  assert (Hvh : forall t', v_held (view a' t') = v_held (view a t')) by (intros t'; unfold a'; vcase t' t; reflexivity).
+  assert (Hvc : forall t', v_cl (view a' t') = v_cl (view a t')) by (intros t'; unfold a'; vcase t' t; reflexivity).
+  assert (Hvs : forall t', v_scan (view a' t') = v_scan (view a t')) by (intros t'; unfold a'; vcase t' t; reflexivity).
+  assert (Hvn : forall t', v_seen (view a' t') = v_seen (view a t')) by (intros t'; unfold a'; vcase t' t; reflexivity).
+  assert (Ho : forall t' r', owns (view a' t') r' -> owns (view a t') r' \/ (t' = t /\ r' = r)).
+  { intros t' r' [H|H].
+    - unfold a' in H. vcase t' t; [cbn in H; inversion H; auto|left; left; exact H].
+    - rewrite Hvh in H. left; right; exact H. }
+  assert (Ho2 : forall t' r', owns (view a t') r' -> owns (view a' t') r').
+  { intros t' r' [H|H]; [|right; now rewrite Hvh]. unfold a'. vcase t' t; [congruence|left; exact H]. }
+  apply mkInv.
+  - intros r' j. rewrite Hs. auto.
+  - intros r' j H. rewrite Hs. destruct (Nat.eq_dec r' r) as [->|Hne]; [congruence|]. rewrite Hoo in H by exact Hne. auto.
+  - intros r' j H. rewrite Hs. rewrite Hlist in H. auto.
+  - intros r' j H. rewrite Hs. auto.
+  - intros r' H. rewrite Hlist in H. rewrite Hlen. auto.
+  - intros t' r' H. rewrite Hlist. unfold a' in H. vcase t' t.
+    + cbn in H. inversion H; subst r'. split; [exact Hor|exact Hin].
+    + destruct (i_rec t' r' H) as (H1 & H2). split; [|exact H2].
+      destruct (Nat.eq_dec r' r) as [->|Hne]; [exact Hor|]. now rewrite Hoo.
+  - intros t' r' H. rewrite Hvh in H. destruct (i_held t' r' H) as (H1 & H2 & H3).
+    rewrite Hlen. repeat split; auto.
+    + destruct (Nat.eq_dec r' r) as [->|Hne]; [exact Hor|]. now rewrite Hoo.
+    + intros j. rewrite Hs. auto.
+  - intros t1 t2 r' H1 H2. apply Ho in H1. apply Ho in H2.
+    destruct H1 as [H1|(E1 & E1')]; destruct H2 as [H2|(E2 & E2')]; subst; eauto.
+    + exfalso. eapply Hnobody; eauto.
+    + exfalso. eapply Hnobody; eauto.
+  - intros t'. rewrite Hvh. destruct (i_self t') as (H1 & H2). split; [exact H1|].
+    intros r' H. unfold a' in H. vcase t' t; [|eauto]. cbn in H. inversion H; subst r'.
+    intros Hin'. eapply Hnobody. right. exact Hin'.
+  - intros t' r' j H1 H2. rewrite Hs. unfold a' in H1, H2. vcase t' t; [cbn in H2; lia|eauto].
+  - intros r' H. rewrite Hlen in H. rewrite Hlist. destruct (i_unl r' H) as [H1|(t' & H1)]; [now left|right].
+    exists t'. now rewrite Hvh.
+  - intros t' r' H. rewrite Hvn in H. rewrite Hlist. eauto.
+  - intros t' cl H. rewrite Hvc in H. destruct (i_claim t' cl H) as (H1 & H2). split; [now apply Ho2|].
+    destruct cl; cbn in *; rewrite Hret; exact H2.
+  - intros t'. rewrite Hvc. auto.
+  - intros r' x H. destruct (i_eff r' x H) as (t' & cl & H1 & H2). exists t', cl. now rewrite Hvc.
+  - intros p. rewrite i_bal. f_equal. symmetry. apply pend_ext; [exact Hlen|].
+    intros r' _. unfold effc. rewrite Hret. reflexivity.
+  - intros t' sv H. rewrite Hvs in H. eauto.
+  - exact i_safe.
+  - exact i_kept.
+  - intros t' H. specialize (i_idle t' H). unfold idle in *. now rewrite Hvh, Hvc.
+Qed.
+
+Lemma NoDup_remove_eq (l : list nat) x : NoDup l -> NoDup (remove Nat.eq_dec x l).
+Proof.
+  induction 1 as [|y l Hn Hd IH]; cbn; [constructor|].
+  destruct (Nat.eq_dec x y); [exact IH|]. constructor; [|exact IH].
+  intros Hin. apply in_remove in Hin. tauto.
+Qed.
+Lemma in_remove_iff (l : list nat) x y : In y (remove Nat.eq_dec x l) <-> In y l /\ y <> x.
+Proof. split; [apply in_remove|]. intros (H1 & H2). now apply in_in_remove. Qed.
+
+(** help_scan claims an abandoned record: CAS owner_rec_ null -> rec succeeded *)
+Lemma inv_acquire_held c g a tr t r :
+  Inv c g a tr -> ~ resp_last tr t -> In r (g_list g) -> r_owner (get_rec g r) = false ->
+  Inv c (upd_rec g r (set_owner true)) (upd_view a t (with_held (view a t) (r :: v_held (view a t)))) tr.
+Proof.
+  intros HI Hnr Hin Hfree.
+  assert (Hlt : r < List.length (g_recs g)) by (apply (i_list_lt _ _ _ _ HI); exact Hin).
+  assert (Hnobody : forall t', ~ owns (view a t') r).
+  { intros t' Ho. pose proof (owns_owner _ _ _ _ _ _ HI Ho). congruence. }
+  destruct (set_owner_facts g r true Hlt) as (Hs & Hret & Hoo & Hor & Hlen & Hlist).
+  destruct HI.
+  set (g' := upd_rec g r (set_owner true)) in *.
+  set (a' := upd_view a t (with_held (view a t) (r :: v_held (view a t)))).
+  assert (Hvr : forall t', v_rec (view a' t') = v_rec (view a t')) by (intros t'; unfold a'; vcase t' t; reflexivity).
+  assert (Hvk : forall t', v_clr (view a' t') = v_clr (view a t')) by (intros t'; unfold a'; vcase t' t; reflexivity).
+  assert (Hvc : forall t', v_cl (view a' t') = v_cl (view a t')) by (intros t'; unfold a'; vcase t' t; reflexivity).
+  assert (Hvs : forall t', v_scan (view a' t') = v_scan (view a t')) by (intros t'; unfold a'; vcase t' t; reflexivity).
+  assert (Hvn : forall t', v_seen (view a' t') = v_seen (view a t')) by (intros t'; unfold a'; vcase t' t; reflexivity).
+  assert (Hh : forall t' r', In r' (v_held (view a' t')) -> In r' (v_held (view a t')) \/ (t' = t /\ r' = r)).
+  { intros t' r' H. unfold a' in H. vcase t' t; [|now left]. cbn in H. destruct H as [<-|H]; auto. }
+  assert (Hh2 : forall t' r', In r' (v_held (view a t')) -> In r' (v_held (view a' t'))).
+  { intros t' r' H. unfold a'. vcase t' t; [cbn; now right|exact H]. }
+  assert (Ho : forall t' r', owns (view a' t') r' -> owns (view a t') r' \/ (t' = t /\ r' = r)).
+  { intros t' r' [H|H]; [rewrite Hvr in H; left; left; exact H|].
+    apply Hh in H. destruct H as [H|H]; [left; right; exact H|now right]. }
+  assert (Ho2 : forall t' r', owns (view a t') r' -> owns (view a' t') r').
+  { intros t' r' [H|H]; [left; now rewrite Hvr|right; now apply Hh2]. }
+  apply mkInv.
+  - intros r' j. rewrite Hs. auto.
+  - intros r' j H. rewrite Hs. destruct (Nat.eq_dec r' r) as [->|Hne]; [congruence|]. rewrite Hoo in H by exact Hne. auto.
+  - intros r' j H. rewrite Hs. rewrite Hlist in H. auto.
+  - intros r' j H. rewrite Hs. auto.
+  - intros r' H. rewrite Hlist in H. rewrite Hlen. auto.
+  - intros t' r' H. rewrite Hvr in H. rewrite Hlist. destruct (i_rec t' r' H) as (H1 & H2). split; [|exact H2].
+    destruct (Nat.eq_dec r' r) as [->|Hne]; [exact Hor|]. now rewrite Hoo.
+  - intros t' r' H. rewrite Hlen. apply Hh in H. destruct H as [H|(-> & ->)].
+    + destruct (i_held t' r' H) as (H1 & H2 & H3). repeat split; auto.
+      * destruct (Nat.eq_dec r' r) as [->|Hne]; [exact Hor|]. now rewrite Hoo.
+      * intros j. rewrite Hs. auto.
+    + repeat split; auto. intros j. rewrite Hs. apply i_zero_unowned. exact Hfree.
+  - intros t1 t2 r' H1 H2. apply Ho in H1. apply Ho in H2.
+    destruct H1 as [H1|(E1 & E1')]; destruct H2 as [H2|(E2 & E2')]; subst; eauto.
+    + exfalso. eapply Hnobody; eauto.
+    + exfalso. eapply Hnobody; eauto.
+  - intros t'. rewrite Hvr. destruct (i_self t') as (H1 & H2). unfold a'. vcase t' t; [|auto]. cbn. split.
+    + constructor; [|exact H1]. intros Hin'. eapply Hnobody. right. exact Hin'.
+    + intros r' H [<-|Hin']; [eapply Hnobody; left; exact H|]. eapply H2; eauto.
+  - intros t' r' j H1 H2. rewrite Hs. rewrite Hvr in H1. rewrite Hvk in H2. eauto.
+  - intros r' H. rewrite Hlen in H. rewrite Hlist. destruct (i_unl r' H) as [H1|(t' & H1)]; [now left|right].
+    exists t'. now apply Hh2.
+  - intros t' r' H. rewrite Hvn in H. rewrite Hlist. eauto.
+  - intros t' cl H. rewrite Hvc in H. destruct (i_claim t' cl H) as (H1 & H2). split; [now apply Ho2|].
+    destruct cl; cbn in *; rewrite Hret; exact H2.
+  - intros t'. rewrite Hvc. auto.
+  - intros r' x H. destruct (i_eff r' x H) as (t' & cl & H1 & H2). exists t', cl. now rewrite Hvc.
+  - intros p. rewrite i_bal. f_equal. symmetry. apply pend_ext; [exact Hlen|].
+    intros r' _. unfold effc. rewrite Hret. reflexivity.
+  - intros t' sv H. rewrite Hvs in H. eauto.
+  - exact i_safe.
+  - exact i_kept.
+  - intros t' H. unfold a'. vcase t' t; [contradiction|auto].
+Qed.
+
+(** free_thread_data: owner_rec_.store( nullptr ) of the attached record, all of whose slots are null *)
+Lemma inv_release_rec c g a tr t r :
+  Inv c g a tr -> v_rec (view a t) = Some r -> cH c <= v_clr (view a t) ->
+  (forall cl, In cl (v_cl (view a t)) -> crec cl <> r) ->
+  Inv c (upd_rec g r (set_owner false)) (upd_view a t (with_rec (view a t) None)) tr.
+Proof.
+  intros HI Hrec Hclr Hcl.
+  assert (Hlt : r < List.length (g_recs g)) by (eapply owns_lt; [exact HI|left; exact Hrec]).
+  assert (Hex : forall t', In r (v_held (view a t')) -> False) by (intros t'; eapply excl_rec_held; eauto).
+  destruct (set_owner_facts g r false Hlt) as (Hs & Hret & Hoo & Hor & Hlen & Hlist).
+  destruct HI.
+  set (g' := upd_rec g r (set_owner false)) in *. set (a' := upd_view a t (with_rec (view a t) None)).
+  assert (Hvh : forall t', v_held (view a' t') = v_held (view a t')) by (intros t'; unfold a'; vcase t' t; reflexivity).
+  assert (Hvc : forall t', v_cl (view a' t') = v_cl (view a t')) by (intros t'; unfold a'; vcase t' t; reflexivity).
+  assert (Hvs : forall t', v_scan (view a' t') = v_scan (view a t')) by (intros t'; unfold a'; vcase t' t; reflexivity).
+  assert (Hvn : forall t', v_seen (view a' t') = v_seen (view a t')) by (intros t'; unfold a'; vcase t' t; reflexivity).
+  assert (Hvr : forall t' r', v_rec (view a' t') = Some r' -> v_rec (view a t') = Some r' /\ r' <> r).
+  { intros t' r' H. unfold a' in H. vcase t' t; [discriminate|]. split; [exact H|].
+    intros ->. assert (t' = t) by (eapply i_excl; left; eauto). congruence. }
+  assert (Ho : forall t' r', owns (view a' t') r' -> owns (view a t') r').
+  { intros t' r' [H|H]; [left; now apply Hvr|right; now rewrite Hvh in H]. }
+  apply mkInv.
+  - intros r' j. rewrite Hs. auto.
+  - intros r' j H. rewrite Hs. destruct (Nat.eq_dec r' r) as [->|Hne]; [|rewrite Hoo in H by exact Hne; auto].
+    destruct (Nat.lt_ge_cases j (cH c)); [eapply i_clr; eauto; lia|auto].
+  - intros r' j H. rewrite Hs. rewrite Hlist in H. auto.
+  - intros r' j H. rewrite Hs. auto.
+  - intros r' H. rewrite Hlist in H. rewrite Hlen. auto.
+  - intros t' r' H. apply Hvr in H. destruct H as (H & Hne). rewrite Hlist, Hoo by exact Hne. eauto.
+  - intros t' r' H. rewrite Hvh in H. destruct (i_held t' r' H) as (H1 & H2 & H3). rewrite Hlen.
+    repeat split; auto.
+    + rewrite Hoo; [exact H2|]. intros ->. eapply Hex; eauto.
+    + intros j. rewrite Hs. auto.
+  - intros t1 t2 r' H1 H2. apply Ho in H1. apply Ho in H2. eauto.
+  - intros t'. rewrite Hvh. destruct (i_self t') as (H1 & H2). split; [exact H1|].
+    intros r' H. apply Hvr in H. destruct H as (H & _). eauto.
+  - intros t' r' j H1 H2. rewrite Hs. apply Hvr in H1. destruct H1 as (H1 & _).
+    unfold a' in H2. vcase t' t; [cbn in H2; lia|eauto].
+  - intros r' H. rewrite Hlen in H. rewrite Hlist. destruct (i_unl r' H) as [H1|(t' & H1)]; [now left|right].
+    exists t'. now rewrite Hvh.
+  - intros t' r' H. rewrite Hvn in H. rewrite Hlist. eauto.
+  - intros t' cl H. rewrite Hvc in H. destruct (i_claim t' cl H) as (H1 & H2). split.
+    + destruct H1 as [H1|H1]; [|right; now rewrite Hvh]. left. unfold a'. vcase t' t; [|exact H1].
+      exfalso. apply (Hcl cl H). congruence.
+    + destruct cl; cbn in *; rewrite Hret; exact H2.
+  - intros t'. rewrite Hvc. auto.
+  - intros r' x H. destruct (i_eff r' x H) as (t' & cl & H1 & H2). exists t', cl. now rewrite Hvc.
+  - intros p. rewrite i_bal. f_equal. symmetry. apply pend_ext; [exact Hlen|].
+    intros r' _. unfold effc. rewrite Hret. reflexivity.
+  - intros t' sv H. rewrite Hvs in H. eauto.
+  - exact i_safe.
+  - exact i_kept.
+  - intros t' H. specialize (i_idle t' H). unfold idle in *. now rewrite Hvh, Hvc.
+Qed.
+
+(** help_scan gives a claimed record back: owner_rec_.store( nullptr ) *)
+Lemma inv_release_held c g a tr t h :
+  Inv c g a tr -> In h (v_held (view a t)) -> In h (g_list g) ->
+  (forall cl, In cl (v_cl (view a t)) -> crec cl <> h) ->
+  Inv c (upd_rec g h (set_owner false))
+        (upd_view a t (with_held (view a t) (remove Nat.eq_dec h (v_held (view a t))))) tr.
+Proof.
+  intros HI Hheld Hin Hcl.
+  assert (Hlt : h < List.length (g_recs g)) by (eapply owns_lt; [exact HI|right; exact Hheld]).
+  assert (Hex : forall t', v_rec (view a t') = Some h -> False) by (intros t' H; eapply excl_rec_held; eauto).
+  destruct (set_owner_facts g h false Hlt) as (Hs & Hret & Hoo & Hor & Hlen & Hlist).
+  destruct HI.
+  set (g' := upd_rec g h (set_owner false)) in *.
+  set (a' := upd_view a t (with_held (view a t) (remove Nat.eq_dec h (v_held (view a t))))).
+  assert (Hvr : forall t', v_rec (view a' t') = v_rec (view a t')) by (intros t'; unfold a'; vcase t' t; reflexivity).
+  assert (Hvk : forall t', v_clr (view a' t') = v_clr (view a t')) by (intros t'; unfold a'; vcase t' t; reflexivity).
+  assert (Hvc : forall t', v_cl (view a' t') = v_cl (view a t')) by (intros t'; unfold a'; vcase t' t; reflexivity).
+  assert (Hvs : forall t', v_scan (view a' t') = v_scan (view a t')) by (intros t'; unfold a'; vcase t' t; reflexivity).
+  assert (Hvn : forall t', v_seen (view a' t') = v_seen (view a t')) by (intros t'; unfold a'; vcase t' t; reflexivity).
+  assert (Hh : forall t' r', In r' (v_held (view a' t')) <-> In r' (v_held (view a t')) /\ r' <> h).
+  { intros t' r'. unfold a'. vcase t' t; [cbn; apply in_remove_iff|].
+    split; [|tauto]. intros H. split; [exact H|]. intros ->.
+    assert (t' = t) by (eapply i_excl; right; eauto). congruence. }
+  assert (Ho : forall t' r', owns (view a' t') r' -> owns (view a t') r').
+  { intros t' r' [H|H]; [left; now rewrite Hvr in H|right; now apply Hh in H]. }
+  apply mkInv.
+  - intros r' j. rewrite Hs. auto.
+  - intros r' j H. rewrite Hs. destruct (Nat.eq_dec r' h) as [->|Hne]; [|rewrite Hoo in H by exact Hne; auto].
+    apply (i_held t h Hheld).
+  - intros r' j H. rewrite Hs. rewrite Hlist in H. auto.
+  - intros r' j H. rewrite Hs. auto.
+  - intros r' H. rewrite Hlist in H. rewrite Hlen. auto.
+  - intros t' r' H. rewrite Hvr in H. rewrite Hlist. rewrite Hoo; [eauto|]. intros ->. eapply Hex; eauto.
+  - intros t' r' H. apply Hh in H. destruct H as (H & Hne). destruct (i_held t' r' H) as (H1 & H2 & H3). rewrite Hlen.
+    repeat split; auto.
+    + now rewrite Hoo.
+    + intros j. rewrite Hs. auto.
+  - intros t1 t2 r' H1 H2. apply Ho in H1. apply Ho in H2. eauto.
+  - intros t'. rewrite Hvr. destruct (i_self t') as (H1 & H2). split.
+    + unfold a'. vcase t' t; [cbn; now apply NoDup_remove_eq|exact H1].
+    + intros r' H Hin'. apply Hh in Hin'. destruct Hin' as (Hin' & _). eapply H2; eauto.
+  - intros t' r' j H1 H2. rewrite Hs. rewrite Hvr in H1. rewrite Hvk in H2. eauto.
+  - intros r' H. rewrite Hlen in H. rewrite Hlist. destruct (Nat.eq_dec r' h) as [->|Hne]; [now left|].
+    destruct (i_unl r' H) as [H1|(t' & H1)]; [now left|right]. exists t'. apply Hh. now split.
+  - intros t' r' H. rewrite Hvn in H. rewrite Hlist. eauto.
+  - intros t' cl H. rewrite Hvc in H. destruct (i_claim t' cl H) as (H1 & H2). split.
+    + destruct H1 as [H1|H1]; [left; now rewrite Hvr|]. right. apply Hh. split; [exact H1|].
+      intros E. assert (t' = t) by (eapply i_excl; right; [exact H1|rewrite E; exact Hheld]). subst t'.
+      apply (Hcl cl H). exact E.
+    + destruct cl; cbn in *; rewrite Hret; exact H2.
+  - intros t'. rewrite Hvc. auto.
+  - intros r' x H. destruct (i_eff r' x H) as (t' & cl & H1 & H2). exists t', cl. now rewrite Hvc.
+  - intros p. rewrite i_bal. f_equal. symmetry. apply pend_ext; [exact Hlen|].
+    intros r' _. unfold effc. rewrite Hret. reflexivity.
+  - intros t' sv H. rewrite Hvs in H. eauto.
+  - exact i_safe.
+  - exact i_kept.
+  - intros t' H. specialize (i_idle t' H). unfold a'. vcase t' t; [|exact i_idle].
+    destruct i_idle as (E & _). rewrite E in Hheld. destruct Hheld.
+Qed.
+
+(** ** 7. create_thread_data + first store, and the push onto thread_list_ *)
+Definition add_rec (g : G) : G := mkG (g_list g) (g_recs g ++ [new_rec]) (g_srcs g).
+
+Lemma add_rec_facts g :
+  let n := List.length (g_recs g) in
+  let g' := add_rec g in
+  (forall r' j, gslot g' r' j = gslot g r' j) /\
+  (forall r', r_ret (get_rec g' r') = r_ret (get_rec g r')) /\
+  (forall r', r' <> n -> r_owner (get_rec g' r') = r_owner (get_rec g r')) /\
+  r_owner (get_rec g' n) = true /\
+  List.length (g_recs g') = S n /\ g_list g' = g_list g.
+Proof.
+  intros n g'.
+  assert (Hget : forall r', r' <> n -> get_rec g' r' = get_rec g r').
+  { intros r' Hne. unfold get_rec, g', add_rec; cbn. destruct (Nat.lt_ge_cases r' n).
+    - now rewrite app_nth1.
+    - rewrite !nth_overflow; auto; [|rewrite app_length; cbn]; fold n; lia. }
+  assert (Hnew : get_rec g' n = new_rec).
+  { unfold get_rec, g', add_rec; cbn. rewrite app_nth2 by (fold n; lia). fold n. now rewrite Nat.sub_diag. }
+  assert (Hold : get_rec g n = dead_rec) by (apply get_rec_ge; fold n; lia).
+  repeat split.
+  - intros r' j. unfold gslot. destruct (Nat.eq_dec r' n) as [->|Hne]; [now rewrite Hnew, Hold|now rewrite Hget].
+  - intros r'. destruct (Nat.eq_dec r' n) as [->|Hne]; [now rewrite Hnew, Hold|now rewrite Hget].
+  - intros r' Hne. now rewrite Hget.
+  - now rewrite Hnew.
+  - unfold g', add_rec; cbn. rewrite app_length; cbn. fold n. lia.
+Qed.
+
+Lemma inv_new_rec c g a tr t :
+  Inv c g a tr -> ~ resp_last tr t ->
+  let r := List.length (g_recs g) in
+  Inv c (add_rec g) (upd_view a t (with_held (view a t) (r :: v_held (view a t)))) tr.
+Proof.
+  intros HI Hnr r.
+  assert (Hnobody : forall t', ~ owns (view a t') r).
+  { intros t' Ho. pose proof (owns_lt _ _ _ _ _ _ HI Ho). unfold r in *. lia. }
+  destruct (add_rec_facts g) as (Hs & Hret & Hoo & Hor & Hlen & Hlist). fold r in Hoo, Hor, Hlen.
+  destruct HI.
+  set (g' := add_rec g) in *.
+  set (a' := upd_view a t (with_held (view a t) (r :: v_held (view a t)))).
+  assert (Hvr : forall t', v_rec (view a' t') = v_rec (view a t')) by (intros t'; unfold a'; vcase t' t; reflexivity).
+  assert (Hvk : forall t', v_clr (view a' t') = v_clr (view a t')) by (intros t'; unfold a'; vcase t' t; reflexivity).
+  assert (Hvc : forall t', v_cl (view a' t') = v_cl (view a t')) by (intros t'; unfold a'; vcase t' t; reflexivity).
+  assert (Hvs : forall t', v_scan (view a' t') = v_scan (view a t')) by (intros t'; unfold a'; vcase t' t; reflexivity).
+  assert (Hvn : forall t', v_seen (view a' t') = v_seen (view a t')) by (intros t'; unfold a'; vcase t' t; reflexivity).
+  assert (Hh : forall t' r', In r' (v_held (view a' t')) -> In r' (v_held (view a t')) \/ (t' = t /\ r' = r)).
+  { intros t' r' H. unfold a' in H. vcase t' t; [|now left]. cbn in H. destruct H as [<-|H]; auto. }
+  assert (Hh2 : forall t' r', In r' (v_held (view a t')) -> In r' (v_held (view a' t'))).
+  { intros t' r' H. unfold a'. vcase t' t; [cbn; now right|exact H]. }
+  assert (Ho : forall t' r', owns (view a' t') r' -> owns (view a t') r' \/ (t' = t /\ r' = r)).
+  { intros t' r' [H|H]; [rewrite Hvr in H; left; left; exact H|].
+    apply Hh in H. destruct H as [H|H]; [left; right; exact H|now right]. }
+  assert (Ho2 : forall t' r', owns (view a t') r' -> owns (view a' t') r').
+  { intros t' r' [H|H]; [left; now rewrite Hvr|right; now apply Hh2]. }
+  assert (Hnl : ~ In r (g_list g)) by (intros H; apply i_list_lt in H; unfold r in H; lia).
+  apply mkInv.
+  - intros r' j. rewrite Hs. auto.
+  - intros r' j H. rewrite Hs. destruct (Nat.eq_dec r' r) as [->|Hne]; [congruence|]. rewrite Hoo in H by exact Hne. auto.
+  - intros r' j H. rewrite Hs. rewrite Hlist in H. auto.
+  - intros r' j H. rewrite Hs. auto.
+  - intros r' H. rewrite Hlist in H. rewrite Hlen. apply i_list_lt in H. unfold r. lia.
+  - intros t' r' H. rewrite Hvr in H. rewrite Hlist. destruct (i_rec t' r' H) as (H1 & H2). split; [|exact H2].
+    rewrite Hoo; [exact H1|]. intros ->. contradiction.
+  - intros t' r' H. rewrite Hlen. apply Hh in H. destruct H as [H|(-> & ->)].
+    + destruct (i_held t' r' H) as (H1 & H2 & H3). repeat split; [unfold r; lia| |].
+      * rewrite Hoo; [exact H2|]. unfold r. lia.
+      * intros j. rewrite Hs. auto.
+    + repeat split; [lia|exact Hor|]. intros j. rewrite Hs. apply i_zero_unlisted. exact Hnl.
+  - intros t1 t2 r' H1 H2. apply Ho in H1. apply Ho in H2.
+    destruct H1 as [H1|(E1 & E1')]; destruct H2 as [H2|(E2 & E2')]; subst; eauto.
+    + exfalso. eapply Hnobody; eauto.
+    + exfalso. eapply Hnobody; eauto.
+  - intros t'. rewrite Hvr. destruct (i_self t') as (H1 & H2). unfold a'. vcase t' t; [|auto]. cbn. split.
+    + constructor; [|exact H1]. intros Hin'. eapply Hnobody. right. exact Hin'.
+    + intros r' H [<-|Hin']; [eapply Hnobody; left; exact H|]. eapply H2; eauto.
+  - intros t' r' j H1 H2. rewrite Hs. rewrite Hvr in H1. rewrite Hvk in H2. eauto.
+  - intros r' H. rewrite Hlen in H. rewrite Hlist. destruct (Nat.eq_dec r' r) as [->|Hne].
+    + right. exists t. unfold a'. rewrite view_upd_same. cbn. now left.
+    + destruct (i_unl r') as [H1|(t' & H1)]; [unfold r in *; lia|now left|right]. exists t'. now apply Hh2.
+  - intros t' r' H. rewrite Hvn in H. rewrite Hlist. eauto.
+  - intros t' cl H. rewrite Hvc in H. destruct (i_claim t' cl H) as (H1 & H2). split; [now apply Ho2|].
+    destruct cl; cbn in *; rewrite Hret; exact H2.
+  - intros t'. rewrite Hvc. auto.
+  - intros r' x H. destruct (i_eff r' x H) as (t' & cl & H1 & H2). exists t', cl. now rewrite Hvc.
+  - intros p. rewrite i_bal. f_equal. unfold pend. rewrite Hlen. fold r. cbn [pend_upto].
+    assert (E : effc g' a' r = []).
+    { unfold effc. destruct (a_eff a' r) as [x|] eqn:Ex.
+      - exfalso. destruct (i_eff r x Ex) as (t' & cl & H1 & H2). eapply (Hnobody t').
+        rewrite <- H2. apply (i_claim t' cl H1).
+      - rewrite Hret. rewrite get_rec_ge by (fold r; lia). reflexivity. }
+    rewrite E. cbn. rewrite Z.add_0_r. symmetry. apply pend_upto_ext.
+    intros r' _. unfold effc. rewrite Hret. reflexivity.
+  - intros t' sv H. rewrite Hvs in H. eauto.
+  - exact i_safe.
+  - exact i_kept.
+  - intros t' H. unfold a'. vcase t' t; [contradiction|auto].
+Qed.
+
+(** the CAS that publishes the new record at the head of thread_list_ *)
+Definition push_rec (g : G) (r : nat) : G := mkG (r :: g_list g) (g_recs g) (g_srcs g).
+Definition pushed_view (v : lview) (r : nat) : lview :=
+  mkV (Some r) (remove Nat.eq_dec r (v_held v)) 0 (v_scan v) (v_cl v) (v_seen v).
+
+Lemma inv_push c g a tr t r :
+  Inv c g a tr -> v_rec (view a t) = None -> In r (v_held (view a t)) ->
+  Inv c (push_rec g r) (upd_view a t (pushed_view (view a t) r)) tr.
+Proof.
+  intros HI Hnone Hheld.
+  destruct (i_held _ _ _ _ HI t r Hheld) as (Hlt & Howner & Hzero).
+  destruct HI.
+  set (g' := push_rec g r). set (a' := upd_view a t (pushed_view (view a t) r)).
+  assert (Hget : forall r', get_rec g' r' = get_rec g r') by reflexivity.
+  assert (Hs : forall r' j, gslot g' r' j = gslot g r' j) by reflexivity.
+  assert (Hvc : forall t', v_cl (view a' t') = v_cl (view a t')) by (intros t'; unfold a'; vcase t' t; reflexivity).
+  assert (Hvs : forall t', v_scan (view a' t') = v_scan (view a t')) by (intros t'; unfold a'; vcase t' t; reflexivity).
+  assert (Hvn : forall t', v_seen (view a' t') = v_seen (view a t')) by (intros t'; unfold a'; vcase t' t; reflexivity).
+  assert (Hh : forall t' r', In r' (v_held (view a' t')) <-> In r' (v_held (view a t')) /\ r' <> r).
+  { intros t' r'. unfold a'. vcase t' t; [cbn; apply in_remove_iff|].
+    split; [|tauto]. intros H. split; [exact H|]. intros ->.
+    assert (t' = t) by (eapply i_excl; right; eauto). congruence. }
+  assert (Ho : forall t' r', owns (view a' t') r' <-> owns (view a t') r').
+  { intros t' r'. unfold owns. rewrite Hh. unfold a'. vcase t' t.
+    - cbn. rewrite Hnone. split.
+      + intros [H|(H & _)]; [inversion H; subst; now right|now right].
+      + intros [H|H]; [discriminate|]. destruct (Nat.eq_dec r' r) as [->|Hne]; [now left|right; now split].
+    - split; [tauto|]. intros [H|H]; [now left|right]. split; [exact H|]. intros ->.
+      assert (t' = t) by (eapply i_excl; right; eauto). congruence. }
+  apply mkInv.
+  - exact i_slot.
+  - exact i_zero_unowned.
+  - intros r' j H. apply i_zero_unlisted. intros Hin. apply H. cbn. now right.
+  - exact i_zero_hi.
+  - intros r' [<-|H]; [exact Hlt|auto].
+  - intros t' r' H. unfold a' in H. vcase t' t.
+    + cbn in H. inversion H; subst r'. split; [exact Howner|cbn; now left].
+    + destruct (i_rec t' r' H) as (H1 & H2). split; [exact H1|cbn; now right].
+  - intros t' r' H. apply Hh in H. destruct H as (H & _). apply (i_held t' r' H).
+  - intros t1 t2 r' H1 H2. apply Ho in H1. apply Ho in H2. eauto.
+  - intros t'. destruct (i_self t') as (H1 & H2). unfold a'. vcase t' t; [cbn|auto]. split.
+    + now apply NoDup_remove_eq.
+    + intros r' H Hin'. inversion H; subst r'. apply in_remove_iff in Hin'. tauto.
+  - intros t' r' j H1 H2. unfold a' in H1, H2. vcase t' t; [cbn in H2; lia|eauto].
+  - intros r' H. destruct (Nat.eq_dec r' r) as [->|Hne]; [left; cbn; now left|].
+    destruct (i_unl r' H) as [H1|(t' & H1)]; [left; cbn; now right|right]. exists t'. apply Hh. now split.
+  - intros t' r' H. rewrite Hvn in H. cbn. right. eauto.
+  - intros t' cl H. rewrite Hvc in H. destruct (i_claim t' cl H) as (H1 & H2). split; [now apply Ho|].
+    destruct cl; exact H2.
+  - intros t'. rewrite Hvc. auto.
+  - intros r' x H. destruct (i_eff r' x H) as (t' & cl & H1 & H2). exists t', cl. now rewrite Hvc.
+  - intros p. rewrite i_bal. f_equal.
+  - intros t' sv H. rewrite Hvs in H. eauto.
+  - exact i_safe.
+  - exact i_kept.
+  - intros t' H. specialize (i_idle t' H). unfold a'. vcase t' t; [|exact i_idle].
+    destruct i_idle as (E & _). rewrite E in Hheld. destruct Hheld.
 Qed.
